@@ -116,6 +116,11 @@ def check(ctx):
     const_take = [n_ for n_ in ast.walk(mt) if isinstance(n_, ast.If) and eqv(n_.test, "n and (not restore_state_flag)")]
     ok = len(const_take) == 1 and bool(find("stack.append((S.copy(), N, matches))", const_take[0])) and not find("restore_state_flag = M_v", const_take[0])
     ctx.ob("TYPESTATE.backtrack.guard", mt, "a constant edge is taken only when not restoring; the state is saved first; the flag is untouched there", ok)
+    # ---------------- the variables of a rule are collected over the WHOLE left-hand side (a bare variable is a pattern too)
+    ri = ctx.model.module("dask/rewrite.py").func("RewriteRule.__init__")
+    vl = find("self._varlist = M_v", ri)
+    ok = len(vl) == 1 and eqv(vl[0][1]["M_v"], "[t for t in Traverser(lhs) if t in vars]") and bool(find("self.vars = tuple(sorted(set(self._varlist)))", ri))
+    ctx.ob("ABS.rule-vars.whole-lhs", ri, "RewriteRule._varlist = [t for t in Traverser(lhs) if t in vars] -- traversal of lhs itself, head included", ok, "" if ok else "collecting over args(lhs) only: a catch-all rule whose lhs is a bare variable has no variables, is stored as a constant edge and never matches")
 
 
 VARIANTS = [
